@@ -556,6 +556,7 @@ func (w *World) execInner(op Op, res *Result) string {
 			res.NumDL = r.NumDeadLettered
 		}
 		victims := firstQueryCol0(w.Ctl.peek(), func(s string) bool { return strings.Contains(s, "FROM `deliveries`") })
+		res.Ids = victims
 		return hdr("dl_sweep") + fmt.Sprintf(" max=%d victims=%s", op.Max, IdList(victims))
 	case "seek_time":
 		// op.D is the target instant in ns since the epoch
